@@ -77,6 +77,7 @@ public:
 
   // per-walker controls
   void set_chunk(int walker, size_t chunk);
+  std::vector<std::string> chunk_exempt_suffixes;   // files whose writes are never split (assumed atomic appends)
   void arm_faults(int walker, std::vector<FsFault> const &f);
   std::vector<FsFault> disarm_faults(int walker);
   void arm_faults_keep(int walker, std::vector<FsFault> const &f) { faults_[walker] = f; }   // keeps run-time counters
